@@ -106,6 +106,12 @@ def check_observe(case):
         return []
     name = type(obj).__name__
     findings = []
+    check_observe.edited = False
+    if case.get('edited'):
+        # the object a caller has after editing items of its vectors in place (sizes cached by the vectors are then
+        # out of step with the items): observers must leave that object alone as well
+        from vf.gen import edits  # pylint: disable=import-outside-toplevel
+        check_observe.edited = bool(edits.nested_edits(obj, random.Random(digest(jdump(case.get('spec') or case.get('hex'))))))
     before = _state(obj)
     first = {}
     failed_any = False
@@ -131,6 +137,7 @@ def check_observe(case):
 
 
 check_observe.failed_any = False
+check_observe.edited = False
 
 
 # ---------------------------------------------------------------------------------------------------
@@ -373,7 +380,8 @@ def _observer_sequences():
 
 
 def observe_strategy(ref):
-    return st.fixed_dictionaries({'kind': st.just('observe'), 'spec': objects.strategy_for(ref), 'observers': _observer_sequences()})
+    return st.fixed_dictionaries({'kind': st.just('observe'), 'spec': objects.strategy_for(ref), 'observers': _observer_sequences(),
+                                  'edited': st.sampled_from([False, False, True])})
 
 
 def full_client_hello_cases(rng):
@@ -397,6 +405,8 @@ def _observe_case_fn(case, stats):
     stats.labels['observe'] += 1
     check_observe.failed_any = False
     findings = check_observe(case)
+    if check_observe.edited:
+        stats.labels['observe:after-in-place-edit'] += 1
     name = specs.spec_class(case['spec']).split(':')[-1] if 'spec' in case else case['cls'].split(':')[-1]
     stats.classes[name] += 1
     if len(set(case['observers'])) >= 2 and (check_observe.failed_any or len(case['observers']) >= 4):
